@@ -49,7 +49,7 @@ func checkWalkerProtocol(p *core.Prog, r *core.Report, rule string) {
 		if f.Parent() == nil {
 			continue
 		}
-		if len(core.FindInstrs(f, w("MarkWorking")))+len(core.FindInstrs(f, w("MarkNotWorking"))) > 0 {
+		if len(core.FindInstrsIn(f, w("MarkWorking")))+len(core.FindInstrsIn(f, w("MarkNotWorking"))) > 0 {
 			bad = append(bad, core.FuncName(f))
 		}
 	}
